@@ -54,7 +54,8 @@ REQUIRED_FEATURES = ["spec:name", "spec:int", "spec:rgb", "spec:gray", "spec:inv
                      "pos:fg+bg", "effects:5-of-5", "effects:explicit-False", "no_color", "bytes-compared",
                      "multi-chunk", "strip-compared", "colon-form-emitted", "invalid-rejected",
                      "render-extend-in-place-render", "sequence", "sequence:hash-equal-lookalike-same-role",
-                     "sequence:invalid-after-equal-valid", "sequence:valid-after-equal-bool"]
+                     "sequence:invalid-after-equal-valid", "sequence:valid-after-equal-bool",
+                     "bytes-applied:no_color", "spec:float-component-tuple"]
 
 EFFECTS = sgr.EFFECTS
 TEXTS = ("", "x", "a b")
@@ -106,8 +107,31 @@ INTS = list(range(-2, 258))
 TUPLES = list(itertools.product(range(-1, 7), repeat=3))
 GRAYS = [f"g{k}" for k in range(-1, 26)]
 JUNK = ["PURPLE", "g", "red", "gx", "g1.5", 1.5, (1, 2), (1, 2, 3, 4), (), "31", "G5"]
-LISTS = [[1, 2, 3], [1, 2, 9]]
-SINGLE = NAMES + INTS + TUPLES + GRAYS + JUNK + LISTS
+LISTS = [[1, 2, 3], [1, 2, 9], [1, 2.0, 3], [1.0, 2.0, 3.0], [2.5, 0, 0]]
+
+
+def _float_tuples():
+    """(r, g, b) with non-int numeric components inside [0, 5]: x.0 in every non-empty subset of positions of
+    every base tuple over {0, 2, 5}, and x.5 in every single position. All of them are invalid values."""
+    out = []
+    for base in itertools.product((0, 2, 5), repeat=3):
+        for mask in range(1, 8):
+            out.append(tuple(float(c) if mask >> i & 1 else c for i, c in enumerate(base)))
+        for i in range(3):
+            if base[i] + 0.5 <= 5:
+                out.append(tuple(c + 0.5 if j == i else c for j, c in enumerate(base)))
+    out += [(1.0, 2.0, 3.0), (2.5, 0, 0), (4, 1.0, 1)]
+    seen, uniq = set(), []
+    for t in out:
+        k = repr(t)
+        if k not in seen:
+            seen.add(k)
+            uniq.append(t)
+    return uniq
+
+
+FLOAT_TUPLES = _float_tuples()
+SINGLE = NAMES + INTS + TUPLES + GRAYS + JUNK + LISTS + FLOAT_TUPLES
 
 # representatives: every family, valid and invalid, both ends of every numeric range
 REPS_QUICK = [None, "RED", "WHITE", 0, 255, (0, 0, 0), (5, 5, 5), "g0", "g23"]
@@ -124,6 +148,7 @@ assert len(EFF_TRI) == 243
 def bounds(tier):
     b = {"single_specs": len(SINGLE), "names": 8, "ints": "-2..257", "tuples": "{-1..6}^3 = 512",
          "grays": "g-1..g25", "junk": len(JUNK), "lists": len(LISTS), "effect_subsets": 32,
+         "tuples_with_float_components": len(FLOAT_TUPLES),
          "construction_sequences": f"all ordered pairs{' and same-role triples' if tier == 'thorough' else ''} over "
                                    f"{len(LOOKALIKES)} look-alike values x fg/bg x ColorFmt/ColorBytes, pristine module each",
          "effect_assignments_True_False_None": "243 x every single spec (fg)" +
@@ -216,7 +241,27 @@ def _leftover_form(stripped):
 
 
 def check_case(case, acc):
-    """-> (violation or None, outcome, features, nontrivial). violation = (sig, msg, observed, expected)."""
+    """-> (violation or None, outcome, features, nontrivial). violation = (sig, msg, observed, expected).
+    Whatever the code under test raises is a verdict, never a crash of the harness."""
+    try:
+        return _check_case(case, acc)
+    except Exception as e:  # noqa
+        import traceback
+        where = traceback.extract_tb(e.__traceback__)[-1]
+        return ((f"unexpected-exception:{type(e).__name__}", f"the package raised {type(e).__name__} in "
+                 f"{where.name}", repr(e), "no exception"), "bad", ["exception"], True)
+
+
+def _guarded(fn, case, acc, label):
+    """check_multi / check_grow: exceptions of the code under test become violations."""
+    try:
+        return fn(case, acc)
+    except Exception as e:  # noqa
+        return (f"{label}:raises-{type(e).__name__}", f"{label}: the package raised {type(e).__name__}", repr(e),
+                "no exception")
+
+
+def _check_case(case, acc):
     color, bg = dec(case["color"]), dec(case["bg"])
     eff = dict(case["eff"])
     no_color = bool(case.get("no_color"))
@@ -247,9 +292,19 @@ def check_case(case, acc):
                     "bad", feats, True)
         for t in TEXTS:
             acc.trans(3)
-            s = str(f(t))
-            s2 = str(impl.CHText(f(t)))
-            b = fb(t.encode())
+            try:
+                s = str(f(t))
+                s2 = str(impl.CHText(f(t)))
+            except Exception as e:  # noqa
+                return ((f"text:apply-raises:no_color", f"applying a no_color ColorFmt raised {type(e).__name__}",
+                         repr(e), t), "bad", feats, True)
+            try:
+                b = fb(t.encode())
+            except Exception as e:  # noqa
+                return ((f"bytes:apply-raises:no_color", f"applying a no_color ColorBytes to bytes raised "
+                         f"{type(e).__name__}", repr(e), repr(t.encode())), "bad", feats + ["bytes-applied:no_color"],
+                        True)
+            feats.append("bytes-applied:no_color")
             if sgr.ESC in s or s != t or s2 != t:
                 return (("no_color-emits-escape", "a no_color formatter changed the text", [s, s2], t),
                         "bad", feats, True)
@@ -279,6 +334,8 @@ def check_case(case, acc):
 
     if ef == "invalid" or eb == "invalid":
         feats.append("spec:invalid")
+        if any(isinstance(x, tuple) and any(isinstance(c, float) for c in x) for x in (color, bg)):
+            feats.append("spec:float-component-tuple")
         for ctor, name in ((impl.ColorFmt, "ColorFmt"), (impl.ColorBytes, "ColorBytes")):
             acc.trans(1)
             v = _verdict_invalid(ctor, name, color, bg, kw, fam)
@@ -319,9 +376,13 @@ def check_case(case, acc):
     colored = False
     for t in TEXTS:
         acc.trans(4)
-        chunk = f(t)
-        s = str(chunk)
-        s2 = str(impl.CHText(chunk)) if t else s
+        try:
+            chunk = f(t)
+            s = str(chunk)
+            s2 = str(impl.CHText(chunk)) if t else s
+        except Exception as e:  # noqa
+            return ((f"text:apply-raises", f"applying a ColorFmt / str() raised {type(e).__name__}", repr(e), t),
+                    "bad", feats, True)
         if s2 != s:
             return (("chtext-str-differs", "str(CHText(chunk)) != str(chunk)", s2, s), "bad", feats, True)
         if sgr.ESC in s:
@@ -350,13 +411,20 @@ def check_case(case, acc):
             return (("state-not-reset", "the terminal is not in the default state after the chunk",
                      {"str": s, "fg": final[0], "bg": final[1], "effects": sorted(final[2])}, "default state"),
                     "bad", feats, True)
-        stripped = impl.CHText.strip_colors(s)
+        try:
+            stripped = impl.CHText.strip_colors(s)
+        except Exception as e:  # noqa
+            return ((f"strip-raises", f"strip_colors raised {type(e).__name__}", repr(e), t), "bad", feats, True)
         feats.append("strip-compared")
         if stripped != t or chunk.plain_text() != t:
             form = _leftover_form(stripped)
             return ((f"strip-misses-sequence:{form}", "strip_colors(str(x)) != x.plain_text()", stripped, t),
                     "bad", feats, True)
-        b = fb(t.encode())
+        try:
+            b = fb(t.encode())
+        except Exception as e:  # noqa
+            return ((f"bytes:apply-raises", f"applying a ColorBytes to bytes raised {type(e).__name__}", repr(e),
+                     repr(s.encode())), "bad", feats, True)
         feats.append("bytes-compared")
         if b != s.encode():
             return (("bytes-differ", "ColorBytes emits other bytes than ColorFmt", repr(b), repr(s.encode())),
@@ -601,7 +669,7 @@ def run_shard(shard, tier, seed, acc):
     if kind == "nocolor":
         pos = shard[1]
         for spec in SINGLE:
-            for sub in EFF_SUBSETS[::3] + [frozenset(EFFECTS)]:
+            for sub in EFF_SUBSETS:
                 eff = {e: True for e in EFFECTS if e in sub}
                 if pos == "fg":
                     _do(acc, spec, None, eff, no_color=True)
@@ -623,7 +691,11 @@ def run_shard(shard, tier, seed, acc):
                         seqs += [[c, a, b] for ic, c in enumerate(first) if c[1] == a[1] and ic != ia]
                     for steps in seqs:
                         case = {"kind": "seq", "steps": [[c, r, enc(sp)] for c, r, sp in steps]}
-                        v, outcome = check_sequence(case, acc)
+                        try:
+                            v, outcome = check_sequence(case, acc)
+                        except Exception as e:  # noqa
+                            v, outcome = (f"sequence:raises-{type(e).__name__}", "the package raised while a "
+                                          "sequence of constructions was judged", repr(e), "no exception"), "seq-bad"
                         acc.case(nontrivial=(a[1] == b[1]), features=_seq_features(steps),
                                  outcome=outcome if v is None else v[0])
                         if a[2] == 200 and b[2] == 200.0 and len(steps) == 2:
@@ -640,14 +712,14 @@ def run_shard(shard, tier, seed, acc):
             for trip in itertools.product(range(len(fm)), repeat=3):
                 case = {"kind": "multi", "rot": rot,
                         "formats": [[enc(fm[i][0]), enc(fm[i][1]), list(fm[i][2])] for i in trip]}
-                v = check_multi(case, acc)
+                v = _guarded(check_multi, case, acc, "multi")
                 acc.case(nontrivial=True, features=("multi-chunk",), outcome="multi-ok" if v is None else v[0])
                 if trip == (1, 2, 4):
                     acc.sample(case)
                 _report(acc, v, case)
         for pair in itertools.product(range(len(fm)), repeat=2):
             case = {"kind": "grow", "formats": [[enc(fm[i][0]), enc(fm[i][1]), list(fm[i][2])] for i in pair]}
-            v = check_grow(case, acc)
+            v = _guarded(check_grow, case, acc, "grow")
             acc.case(nontrivial=True, features=("render-extend-in-place-render",),
                      outcome="grow-ok" if v is None else v[0])
             _report(acc, v, case)
@@ -657,12 +729,15 @@ def run_shard(shard, tier, seed, acc):
 
 def replay(case, acc):
     if case["kind"] == "multi":
-        _report(acc, check_multi(case, acc), case)
+        _report(acc, _guarded(check_multi, case, acc, "multi"), case)
     elif case["kind"] == "grow":
-        _report(acc, check_grow(case, acc), case)
+        _report(acc, _guarded(check_grow, case, acc, "grow"), case)
     elif case["kind"] == "seq":
         try:
             _report(acc, check_sequence(case, acc)[0], case)
+        except Exception as e:  # noqa
+            _report(acc, (f"sequence:raises-{type(e).__name__}", "the package raised while a sequence of "
+                          "constructions was judged", repr(e), "no exception"), case)
         finally:
             _pristine()
     else:
